@@ -28,15 +28,14 @@ PROPS = {}
 
 # ------------------------------------------------------------------ C01
 PROPS["C01"] = {
-    "bounds": "leaf signatures y b n q i u x t d (every value), s o (text of 0..=3 ASCII bytes) at every message offset 0..15 and both byte orders, "
-              "through the public to_writer_for_signature / serialized_size; padding kernel for every usize and alignment 1/2/4/8",
-    "outside": "container signatures (arrays, dicts, structs, variants) and file descriptors through the whole API: CBMC does not fit them in 20 GB "
-               "(DESIGN.md §9); strings longer than 3 bytes; 3- and 4-byte UTF-8 scalars",
+    "bounds": "leaf signatures y b n q i u x t d (every value), s o (text of 0..=3 ASCII bytes, plus 2-byte UTF-8 scalars) at every message offset 0..15 and both byte orders, "
+              "through the public to_writer_for_signature / serialized_size; arrays ay aq au at with 0/1/2 elements at offsets 0/3/4; ah with two descriptors; struct (yu) at offsets 0/5; padding kernel for every usize and alignment 1/2/4/8",
+    "outside": "dicts, variants, arrays of structs, nested containers, dict-encoded structs (do not fit, DESIGN.md 9.5); strings longer than 3 bytes; 3- and 4-byte UTF-8 scalars",
     "assumptions": [FMT_STUB, CLOSE_STUB, FORGET, RECB,
                     "reference marshaller kani/zv/src/refmodel/dbus.rs is the specification (validated natively against spec examples and the real encoder on every run)"],
     "level_text": "Bounded model checking of the real serializer compiled by Kani: for every value of each leaf type, every message offset 0..15 and both byte "
-                  "orders, CBMC proves the produced bytes equal an independent spec marshaller and that the size pass agrees. Tests sample a few values at offset 0.",
-    "level_note": "bounded to leaf signatures (containers are outside the claim, see evidence.outside_claim); trusts Kani/CBMC, the stubs listed in assumptions and the reference marshaller",
+                  "orders, CBMC proves the produced bytes equal an independent spec marshaller and that the size pass agrees; arrays of fixed-size elements, descriptor arrays and one struct shape are decided per (offset, element count) cell. Tests sample a few values at offset 0.",
+    "level_note": "bounded: leaf signatures at every offset, arrays of fixed-size elements and one struct shape per (offset, count) cell; other containers are outside the claim (evidence.coverage.outside_claim); trusts Kani/CBMC, the stubs listed in assumptions and the reference marshaller",
     "groups": [
         dict(ZV, harnesses=
              [H("c01_enc_%s" % t, "quick" if t in "ut" else "thorough", timeout=2400, cost=90, recursion_bounds=REC1, bounds=LEAF_BOUNDS,
@@ -102,7 +101,7 @@ PROPS["C03"] = {
     "outside": "object paths through bytes (typed ObjectPath decode of 7 symbolic bytes times out at 1500 s; the grammar itself is C10), arrays of containers, structs other than the (yu) cells, dicts, variants, the dynamic Value target (ValueSeed path: times out at 1500 s even for leaf signatures), depth limits through bytes (do not fit, DESIGN.md 9.5); strings longer than 3 bytes",
     "assumptions": [FMT_STUB, CLOSE_STUB, FORGET, RECB],
     "level_text": "Bounded model checking of the real D-Bus deserializer on fully symbolic input buffers against an independent validating reader written from the specification: acceptance, decoded value and consumed count must agree for every byte string within the bound (zero padding, BOOLEAN 0/1, string length inside the buffer, NUL terminator, interior NUL, UTF-8).",
-    "level_note": "bounded to leaf signatures; core::str::from_utf8 and memchr are replaced by byte-loop specifications in the text harnesses (trusted equivalence, checked natively on every run)",
+    "level_note": "bounded: leaf signatures, strings <= 3 bytes, struct (yu) and arrays of fixed-size elements per (offset, byte order) cell; core::str::from_utf8 and memchr are replaced by byte-loop specifications in the text harnesses (trusted equivalence, checked natively on every run)",
     "groups": [
         dict(ZV, harnesses=
              [H("c03_dec_%s" % t, "quick" if t in "ub" else "thorough", timeout=1800, cost=60, recursion_bounds=REC1,
